@@ -184,7 +184,7 @@ def _opaque(hint):
     return ast.Name(id='<%s#%d>' % (hint, _opaque_n[0]), ctx=ast.Load())
 
 
-def sym_paths(fi, decide, limit=2048):
+def sym_paths(fi, decide, limit=2048, fold=None):
     """Enumerate the paths of an acyclic function body symbolically.  ``decide(atom)`` -> True / False / None for a
     test atom whose locals were substituted by their values; None = free (both outcomes are followed).  Loops, try
     and with statements are outside the modelled subset (AnalysisError)."""
@@ -209,6 +209,8 @@ def sym_paths(fi, decide, limit=2048):
                 out.extend(split(test.body if r else test.orelse, s, subst))
             return out
         atom = _subst(test, st.env) if subst else test
+        if fold is not None and subst:
+            atom = fold(atom)
         if subst and (isinstance(atom, (ast.BoolOp, ast.IfExp)) or (isinstance(atom, ast.UnaryOp) and isinstance(atom.op, ast.Not))):
             return split(atom, st, False)
         inv = False
@@ -274,7 +276,7 @@ def sym_paths(fi, decide, limit=2048):
                 st.env[s.target.id] = _subst(ast.BinOp(left=ast.Name(id=s.target.id, ctx=ast.Load()), op=s.op, right=s.value), st.env)
             return [st]
         if isinstance(s, ast.Return):
-            st.term = ('return', _subst(s.value, st.env) if s.value is not None else None, s)
+            st.term = ('return', (fold or (lambda x: x))(_subst(s.value, st.env)) if s.value is not None else None, s)
             return [st]
         if isinstance(s, ast.Raise):
             st.term = ('raise', _subst(s.exc, st.env) if s.exc is not None else None, s)
@@ -414,14 +416,21 @@ def _decide_typed(mod, ctx, T):
                 return True
             if all(r is False for r in rs):
                 return False
+        if isinstance(atom, ast.Compare) and len(atom.ops) == 1 and isinstance(atom.ops[0], (ast.Is, ast.Eq)) and \
+                isinstance(atom.comparators[0], ast.Constant) and atom.comparators[0].value is None:
+            # ``x is None`` (``is not`` arrives flipped): text is never None
+            if isinstance(atom.left, ast.Constant):
+                return atom.left.value is None
+            if _abs_type(atom.left, ctx, T) in ('str', 'bytes', 'sized'):
+                return False
         return None
     return decide
 
 
 def _sniff_kind(atom):
     """('gj', arg) for a _guess_json(arg) call, ('html', searched value) for the <html sniff, else (None, None)."""
-    if isinstance(atom, ast.Call) and call_tail(atom) == '_guess_json' and atom.args:
-        return 'gj', atom.args[0]
+    if isinstance(atom, ast.Call) and call_tail(atom) == '_guess_json' and (atom.args or atom.keywords):
+        return 'gj', atom.args[0] if atom.args else atom.keywords[0].value
     needle = hay = None
     if isinstance(atom, ast.Compare) and len(atom.ops) == 1:
         if isinstance(atom.ops[0], ast.In):
@@ -871,6 +880,43 @@ def eval_pure(repo, fi, args):
 
 
 # ---------------------------------------------------------------------------------------------- small helpers
+def _fold_names(repo, fi, expr):
+    """Replace names of str / bytes / int constants (module level, class level through self / cls / the class) in an
+    already substituted expression by the constants: ``_HTML_MARKER in payload[:self._sniff_len]``."""
+    params = set(fi.params())
+
+    class F(ast.NodeTransformer):
+        def visit_Name(self, n):
+            if isinstance(n.ctx, ast.Load) and n.id not in params and not n.id.startswith('<'):
+                try:
+                    v = repo.try_fold(n, fi.mod)
+                except Exception:
+                    v = None
+                if isinstance(v, (str, bytes)) or (isinstance(v, int) and not isinstance(v, bool)):
+                    return ast.copy_location(ast.Constant(value=v), n)
+            return n
+
+        def visit_Attribute(self, n):
+            if isinstance(n.value, ast.Name) and (n.value.id in ('self', 'cls') or n.value.id in fi.mod.classes):
+                v = _fold_const(repo, fi, n)
+                if isinstance(v, (str, bytes)) or (isinstance(v, int) and not isinstance(v, bool)):
+                    return ast.copy_location(ast.Constant(value=v), n)
+                return n
+            return self.generic_visit(n)
+
+        def visit_Lambda(self, n):
+            return n
+    return F().visit(expr)
+
+
+def _is_response(mod, call):
+    if not isinstance(call, ast.Call):
+        return False
+    if call_tail(call) == 'Response':
+        return True
+    return isinstance(call.func, ast.Name) and mod.imports.get(call.func.id, (None, None))[1] == 'Response'
+
+
 def _fold_const(repo, fi, expr, depth=0):
     """Constant value of an expression: literal, single-assignment local, module-level constant, class-level constant
     read through self / cls / the class name.  None when it is not a constant."""
@@ -903,12 +949,26 @@ def _fold_const(repo, fi, expr, depth=0):
     return repo.try_fold(expr, fi.mod) if fi is not None else None
 
 
-def _call_arg(repo, mod, call, name):
+def _call_arg(repo, mod, call, name, fi=None):
     """Argument ``name`` of a constructor / function call: keyword, or the positional slot the callee's signature
     gives that name (callee resolved in the analysed tree)."""
     v = kwarg(call, name)
     if v is not None:
         return v
+    for k in call.keywords:
+        # f(**options) with options = {...} / dict(...) bound once in the calling function
+        if k.arg is None:
+            d = k.value
+            if isinstance(d, ast.Name) and fi is not None:
+                vals = assigned_value(fi.node, d.id)
+                d = vals[0][1] if len(vals) == 1 and vals[0][2] is None else None
+            if isinstance(d, ast.Dict):
+                for kk, vv in zip(d.keys, d.values):
+                    if isinstance(kk, ast.Constant) and kk.value == name:
+                        return vv
+            elif isinstance(d, ast.Call) and isinstance(d.func, ast.Name) and d.func.id == 'dict' and not d.args:
+                if kwarg(d, name) is not None:
+                    return kwarg(d, name)
     if any(isinstance(a, ast.Starred) for a in call.args):
         return None
     f = call.func
@@ -928,6 +988,23 @@ def _call_arg(repo, mod, call, name):
     if params and name in params and params.index(name) < len(call.args):
         return call.args[params.index(name)]
     return None
+
+
+def _suppressed(fi, node):
+    """node runs inside ``with suppress(Exception):`` (contextlib) in this function."""
+    cur = node
+    while cur is not None and cur is not fi.node:
+        par = fi.mod.parents.get(cur)
+        if isinstance(cur, (ast.Lambda, ast.GeneratorExp)):
+            return False
+        if isinstance(par, ast.With) and cur in par.body:
+            for it in par.items:
+                ce = it.context_expr
+                if isinstance(ce, ast.Call) and call_tail(ce) == 'suppress' and ce.args and \
+                        all(norm(a).rpartition('.')[2] in ('Exception', 'BaseException') for a in ce.args):
+                    return True
+        cur = par
+    return False
 
 
 def _is_repr_of(expr, name):
@@ -1013,7 +1090,7 @@ def run(rep):
     ctx_param = 'context' if 'context' in rr_params else rr_params[0]
     # the symbolic paths of render_response, once per abstract type of the endpoint result
     TYPES = ('str', 'bytes', 'sized', 'unsized')
-    paths = dict((T, sym_paths(rr, _decide_typed(simple, ctx_param, T))) for T in TYPES)
+    paths = dict((T, sym_paths(rr, _decide_typed(simple, ctx_param, T), fold=lambda e: _fold_names(repo, rr, e))) for T in TYPES)
 
     def sniffs(st):
         """[(kind, searched / guessed value, original test node, polarity)] of the free sniffing tests of a path."""
@@ -1098,7 +1175,7 @@ def run(rep):
 
     def label_of(st):
         """(mimetype, body expr) of a path that returns Response(body, mimetype=<constant>), else (None, None)."""
-        if st.term[0] != 'return' or not (isinstance(st.term[1], ast.Call) and call_tail(st.term[1]) == 'Response'):
+        if st.term[0] != 'return' or not _is_response(simple, st.term[1]):
             return None, None
         v = st.term[1]
         mt = _fold_const(repo, rr, argn(v, 'mimetype', 3))
@@ -1114,7 +1191,7 @@ def run(rep):
     for T in TYPES:
         for st in paths[T]:
             v = st.term[1]
-            if st.term[0] == 'return' and isinstance(v, ast.Call) and call_tail(v) == 'Response' and \
+            if st.term[0] == 'return' and _is_response(simple, v) and \
                     argn(v, 'mimetype', 3) is not None and label_of(st)[0] is None:
                 raise AnalysisError('render_response: the mimetype %s of a returned Response is not a constant the analysis '
                                     'can follow' % short(argn(v, 'mimetype', 3), 60))
@@ -1275,7 +1352,7 @@ def run(rep):
         if call_tail(c) in ('decode', 'loads', 'fromhex', 'unhexlify', 'b64decode') or fname in converters:
             n_att += 1
             h = protected_by(de, c, 'ValueError')
-            ok = h is not None and not any(isinstance(x, ast.Raise) for x in ast.walk(h))
+            ok = (h is not None and not any(isinstance(x, ast.Raise) for x in ast.walk(h))) or _suppressed(de, c)
             rep.check('R17.d', fkey(de, c), ok, 'conversion attempt %s is guarded (falls through to the next strategy)' % short(c, 40) if ok else
                       'conversion %s in ClasticJSONEncoder.default is unguarded: a value it cannot convert (e.g. non-UTF-8 bytes) raises '
                       'instead of degrading' % short(c, 60), simple, c)
@@ -1284,7 +1361,7 @@ def run(rep):
 
     # construction sites
     def dev_arg(fi_, call):
-        return _call_arg(repo, fi_.mod if fi_ is not None else simple, call, 'dev_mode')
+        return _call_arg(repo, fi_.mod if fi_ is not None else simple, call, 'dev_mode', fi_)
 
     def popped_default(fi_, expr):
         """(True, default) when expr reads the 'dev_mode' option: kwargs.pop/get('dev_mode', default) or a parameter."""
@@ -1385,7 +1462,7 @@ def run(rep):
             encs.append((None, v))
     if not encs:
         raise AnalysisError('HTTPException.to_json: the ClasticJSONEncoder it encodes with was not found')
-    ok = all(_fold_const(repo, f_, _call_arg(repo, errors, c, 'dev_mode')) is True if f_ is not None else
+    ok = all(_fold_const(repo, f_, _call_arg(repo, errors, c, 'dev_mode', f_)) is True if f_ is not None else
              repo.try_fold(_call_arg(repo, errors, c, 'dev_mode') or ast.Constant(value=None), errors) is True for f_, c in encs)
     rep.check('R17.d', fkey(tj, 'ClasticJSONEncoder'), ok, 'error JSON is encoded in dev mode (never raises on odd details)' if ok else
               'HTTPException.to_json does not use a dev-mode encoder', errors, tj.node)
@@ -1426,7 +1503,7 @@ def run(rep):
     # JSON renderer labels
     for q, want in (('JSONRender.__call__', 'application/json'), ('JSONPRender.__call__', 'application/javascript')):
         f = simple.func(q)
-        calls = [c for c in walk_body(f.node) if isinstance(c, ast.Call) and call_tail(c) == 'Response']
+        calls = [c for c in walk_body(f.node) if _is_response(simple, c)]
         if not calls:
             raise AnalysisError('%s: the Response it constructs was not found' % q)
         mts = [_fold_const(repo, f, argn(c, 'mimetype', 3)) for c in calls]
